@@ -441,7 +441,7 @@ theorem done_keeps_skipped (kp : Nat → Bool) (gd : Gdef) (pre : List TG) (cur 
   | gpos11 _ _ => exact sub_of_rest_eq hsimple
   | gpos12 _ _ => exact sub_of_rest_eq hsimple
   | gpos31 _ _ => exact sub_of_rest_eq hsimple
-  | gpos41 _ _ _ _ => exact sub_of_rest_eq hsimple
+  | gpos41 _ _ _ _ _ => exact sub_of_rest_eq hsimple
   | gpos61 _ _ _ _ => exact sub_of_rest_eq hsimple
 
 end SfntV.C06sem
